@@ -14,7 +14,7 @@ import SteelVerif.C12.Parse
 import SteelVerif.C12.GenUnicode
 namespace SteelVerif.C12
 
-def inRanges (rs : Array (Nat × Nat)) (n : Nat) : Bool := rs.any (fun r => r.1 ≤ n && n ≤ r.2)
+def inRanges (rs : Array (Nat × Nat)) (n : Nat) : Bool := rs.toList.any (fun r => r.1 ≤ n && n ≤ r.2)
 
 /-- printed as `\u{..}` inside strings and as `#\u....` as a character -/
 def needsEsc (c : Char) : Bool := inRanges Gen.escRanges c.toNat
